@@ -20,7 +20,7 @@ func init() { register(propC10{}) }
 func (propC10) ID() string    { return "C10" }
 func (propC10) Level() string { return "fault_enumeration" }
 func (propC10) Rule() string {
-	return "run indices below the grid size enumerate, exhaustively, 5 fixed trees (3 valid, 2 invalid) x {6 writer entry points x {no fault, error at Write 1/2, short write at Write 1/2, re-entrant writer}, Save x 7 target situations (fresh, existing short/long, directory, missing parent, parent is a file, dangling symlink, symlink to a file) x {none, EACCES, ENOSPC with 0/50/100% landed, EIO}}; the remaining indices sample trees, histories (1..3 faulted ops) and plans by seed, under seeded map order; distinct = distinct (entry point, tree validity, fault kind, fired?, outcome class); non-trivial = a fault fired or the tree was invalid"
+	return "run indices below the grid size enumerate, exhaustively, 5 fixed trees (3 valid, 2 invalid) x {6 writer entry points x {no fault, error at Write 1/2, short write at Write 1/2, re-entrant writer}, Save x 8 target situations (fresh, existing short/long, existing with CRLF line endings, directory, missing parent, parent is a file, dangling symlink, symlink to a file) x {none, EACCES, ENOSPC with 0/50/100% landed, EIO}}; the remaining indices sample trees, histories (1..3 faulted ops) and plans by seed, under seeded map order; distinct = distinct (entry point, tree validity, fault kind, fired?, outcome class); non-trivial = a fault fired or the tree was invalid"
 }
 func (propC10) Runs(tier string) int {
 	if tier == "thorough" {
@@ -30,8 +30,8 @@ func (propC10) Runs(tier string) int {
 }
 
 var c10EntryPoints = []string{"render", "render_frag", "render_frag_nofile", "render_group", "render_group_nofile", "render_body"}
-var c10WriterPlans = []*WriterPlan{nil, {FailAt: 1, Kind: "err"}, {FailAt: 2, Kind: "err"}, {FailAt: 1, Kind: "short"}, {FailAt: 2, Kind: "short"}, {FailAt: 1, Kind: "errfull"}, {Reenter: true}}
-var c10Targets = []string{"fresh", "existing", "isdir", "noparent", "parentfile", "symlink-dangling", "symlink-file"}
+var c10WriterPlans = []*WriterPlan{nil, {FailAt: 1, Kind: "err"}, {FailAt: 2, Kind: "err"}, {FailAt: 1, Kind: "short"}, {FailAt: 2, Kind: "short"}, {FailAt: 1, Kind: "errfull"}, {Reenter: true}, {Kind: "bytesbuffer"}}
+var c10Targets = []string{"fresh", "existing", "existing-crlf", "isdir", "noparent", "parentfile", "symlink-dangling", "symlink-file"}
 var c10Injects = []FSPlan{{}, {Part: 25}, {Inject: "eacces", At: 1}, {Inject: "enospc", At: 1, Part: 0}, {Inject: "enospc", At: 1, Part: 50}, {Inject: "enospc", At: 1, Part: 100}, {Inject: "eio", At: 1, Part: 30}}
 
 func c10Trees() []*Recipe {
@@ -107,7 +107,7 @@ func (propC10) GenAt(index int, seed uint64, tier string) *Case {
 	if r.Chance(0.2) {
 		cfg.KeyQualMode = 2
 	}
-	g := &Gen{r: r, cfg: cfg}
+	g := &Gen{r: r, cfg: cfg, lits: true}
 	g.universe()
 	rec := &Recipe{Paths: g.paths}
 	rec.File = genFileSpec(g, r, true)
@@ -144,6 +144,9 @@ func (propC10) GenAt(index int, seed uint64, tier string) *Case {
 		}
 		if r.Chance(0.12) {
 			return &WriterPlan{Reenter: true}
+		}
+		if r.Chance(0.12) {
+			return &WriterPlan{Kind: "bytesbuffer"}
 		}
 		k := r.Range(1, 3)
 		if big {
@@ -241,6 +244,8 @@ func faultKind(op *Op, o *Outcome) string {
 	switch {
 	case op.W != nil && op.W.Reenter:
 		return "writer-reenters"
+	case op.W != nil && op.W.Kind == "bytesbuffer":
+		return "writer-is-bytes.Buffer"
 	case op.W != nil && op.W.FailAt > 0:
 		return fmt.Sprintf("writer-%s@%d", op.W.Kind, op.W.FailAt)
 	case op.F != nil && op.F.Inject != "":
@@ -255,8 +260,25 @@ func (propC10) Check(c *Case) (*Violation, *RunInfo) {
 	ri := &RunInfo{}
 	sandbox := sandboxDir()
 	defer cleanSandbox(sandbox)
+	// targets that must look like an older copy of what is about to be saved need to know it
+	prefill := map[int][]byte{}
+	for i, op := range c.Recipe.Ops {
+		if op.K == "save" && op.F != nil && op.F.Target == "existing-crlf" {
+			pr := cloneRecipe(c.Recipe)
+			pr.Ops[i] = Op{K: "render"}
+			restoreGlobals()
+			envP := newEnv(c.Execs[0].sim())
+			envP.Sandbox = sandbox + "/p"
+			envP.NoFaults, envP.UpTo = true, i
+			if h := Exec(pr, envP); len(h) > i && h[i].OK {
+				prefill[i] = h[i].Out
+			}
+		}
+	}
+	restoreGlobals()
 	simA := c.Execs[0].sim()
 	envA := newEnv(simA)
+	envA.Prefill = prefill
 	envA.Sandbox = sandbox + "/a"
 	hist := Exec(c.Recipe, envA)
 	ri.Steps = simA.Steps
